@@ -210,6 +210,10 @@ package lnwallet
 //@           (msg.NextLocalCommitHeight == wrap(rtip + 1, 64) || msg.NextLocalCommitHeight == rtip) && msg.NextLocalCommitHeight > rt
 //@   site return ErrCannotSyncCommitChains: assert msg.RemoteCommitTailHeight > lt || isRestoredChan ||
 //@           msg.NextLocalCommitHeight > wrap(rtip + 1, 64) || (msg.NextLocalCommitHeight > rt && msg.NextLocalCommitHeight < rtip)
+//@   site call IsEqual: assert arg(1) == msg.LocalUnrevokedCommitPoint &&
+//@        (msg.NextLocalCommitHeight == wrap(rt + 1, 64) || msg.NextLocalCommitHeight == wrap(rt + 2, 64)) &&
+//@        arg(0) == ite(msg.NextLocalCommitHeight == wrap(rt + 1, 64), lc.channelState.RemoteCurrentRevocation,
+//@                      lc.channelState.RemoteNextRevocation)
 //@   site return nil as insync: assert (msg.RemoteCommitTailHeight == lt && msg.NextLocalCommitHeight == wrap(rtip + 1, 64)) ==> len(result0) == 0
 //@   site call append nth 3: assert arg(0) == commitUpdates && retn(RemoteCommitChainTip, 1) == nil
 //@   site call append nth 4: assert lc.channelState.LastWasRevoke && arg(0) == commitUpdates && arg(1) == updates
